@@ -5,6 +5,7 @@ package main
 
 import (
 	"fmt"
+	"strings"
 	"math/rand"
 	"time"
 
@@ -517,6 +518,11 @@ func sessionWorld(seed int64, id int, so sessOpts) (*World, string) {
 	case "unparsable":
 		// the resolver answers, without error, with a key the principal parser cannot use (RSA, parser knows Ed25519 only)
 		w.Ctx.KeyResolver[account.DID.String()] = cast.RSA("acctrsa", 2)
+	case "webkey":
+		// the resolver answers with ANOTHER non-key DID (did:web), which the principal parser knows: verifier.Wrap
+		// only wraps did:key verifiers, so the token is not acceptable
+		w.Ctx.KeyResolver[account.DID.String()] = cast.Wrapped("acctweb", "did:web:alice.example", acctKey)
+		w.Ctx.ParserKind = "ed+web"
 	case "undef":
 		// ... or with the undefined DID (a table lookup that misses, returned without an error)
 		w.Ctx.KeyResolver[account.DID.String()] = &Prin{Name: "undef"}
@@ -599,6 +605,16 @@ func init() {
 					worlds = append(worlds, w)
 					id++
 				}
+			}
+		}
+		// the key resolver answers with a did:web the principal parser knows (gen_cov.go)
+		for _, attested := range []string{"none", "this", "other"} {
+			for pos := 0; pos <= 2; pos++ {
+				w, label := sessionWorld(o.seed, id, sessOpts{Attested: attested, AttIssuer: "authority", Resource: "authority", Window: "valid", Pos: pos, Resolver: "webkey"})
+				w.ID = id
+				labels[id] = label
+				worlds = append(worlds, w)
+				id++
 			}
 		}
 		// a non-key authority and principals / resources whose DID text extends the authority's
@@ -887,6 +903,23 @@ func init() {
 						"verdict_a": verdicts[0], "verdict_b": v, "label": labels[ids[i]]})
 				}
 			}
+		}
+		// gen_cov.go: a valid chain among unknown abilities of the same token / unresolvable top-level proof links
+		xw, xl := covExtraWorlds(o.seed, id, false)
+		for i, w := range xw {
+			c, _, err := runAndRender(w, st, xl[i])
+			if err != nil {
+				return err
+			}
+			labels[w.ID] = xl[i]
+			cases = append(cases, c)
+		}
+		claimCases, err := covClaimCases(o.seed, id+len(xw), st, labels)
+		if err != nil {
+			return err
+		}
+		if err := writeClaimCases(o.out, "cases_C06claim", claimCases); err != nil {
+			return err
 		}
 		if err := writeWorldCases(o.out, "cases_C06", cases, 16, "check_worlds"); err != nil {
 			return err
@@ -1289,6 +1322,19 @@ func init() {
 			} else {
 				retries++
 			}
+		}
+		// gen_cov.go: tokens issued without an expiration option (library default: 30 s from now) are inside their window
+		xw, xl := covExtraWorlds(o.seed, id, false)
+		for i, w := range xw {
+			if !strings.Contains(xl[i], "default-exp") {
+				continue
+			}
+			c, _, err := runAndRender(w, st, xl[i])
+			if err != nil {
+				return err
+			}
+			labels[w.ID] = xl[i]
+			cases = append(cases, c)
 		}
 		if err := writeWorldCases(o.out, "cases_C03", cases, 16, "check_worlds"); err != nil {
 			return err
